@@ -107,10 +107,24 @@ func (im *inertModel) failingLeaves(v ssa.Value, at inertPoint, isBool bool, see
 	}
 }
 
+// methods of the dictionary that insert or remove (from the M6 model); set by inert()
+var inertDictWriters = map[*ssa.Function]bool{}
+
+func isNamed(t types.Type, name string) bool {
+	n, ok := t.(*types.Named)
+	return ok && n.Obj().Name() == name
+}
+
 func (c *Ctx) inert() *inertModel {
 	im := &inertModel{c: c, mayMut: map[*ssa.Function]bool{}, mayFail: map[*ssa.Function]bool{},
 		fails: map[*ssa.Function][]inertPoint{}, muts: map[*ssa.Function][]inertPoint{}}
 	mm := c.M.Muts()
+	for f := range mm.dictStore {
+		inertDictWriters[f] = true
+	}
+	for f := range mm.dictRem {
+		inertDictWriters[f] = true
+	}
 	for fn, ss := range mm.sites {
 		for _, s := range ss {
 			b, i := s.start()
@@ -323,14 +337,40 @@ func plainReachAvoid(from, to, avoid *ssa.BasicBlock) bool {
 	return false
 }
 
-// isEmptyDictCall: a call of the dictionary constructor (a new, empty dictionary).
+// isEmptyDictCall: a call of the dictionary constructor (a new, empty dictionary). The constructor is identified by
+// shape, not by name: a parameterless package function returning *redisDict whose every return value is an object
+// allocated in it and which calls no method of the dictionary (nothing is inserted).
+var emptyCtorMemo = map[*ssa.Function]bool{}
+
+func isEmptyDictCtor(g *ssa.Function) bool {
+	if v, ok := emptyCtorMemo[g]; ok {
+		return v
+	}
+	r := false
+	if g != nil && g.Signature.Recv() == nil && g.Signature.Params().Len() == 0 && g.Signature.Results().Len() == 1 && len(g.Blocks) > 0 {
+		if p, ok := g.Signature.Results().At(0).Type().(*types.Pointer); ok {
+			if n, ok := p.Elem().(*types.Named); ok && n.Obj().Name() == "redisDict" && returnsFreshAlloc(g) {
+				r = true
+				for _, in := range instrsOf(g) {
+					if call, ok := in.(*ssa.Call); ok {
+						if h := call.Call.StaticCallee(); h != nil && h.Signature.Recv() != nil {
+							r = false // calls a method (possibly an insertion)
+						}
+					}
+				}
+			}
+		}
+	}
+	emptyCtorMemo[g] = r
+	return r
+}
+
 func isEmptyDictCall(v ssa.Value) bool {
 	c, ok := v.(*ssa.Call)
 	if !ok {
 		return false
 	}
-	g := c.Call.StaticCallee()
-	return g != nil && g.Name() == "newRedisDict"
+	return isEmptyDictCtor(c.Call.StaticCallee())
 }
 
 // lookupOnEmpty: cond is the "found" result of a lookup in a dictionary that is known to be new and empty on this path.
@@ -344,7 +384,14 @@ func lookupOnEmpty(cond ssa.Value, empty map[ssa.Value]bool) bool {
 		return false
 	}
 	g := call.Call.StaticCallee()
-	if g == nil || g.Signature.Recv() == nil || (g.Name() != "get" && g.Name() != "exists") || len(call.Call.Args) == 0 {
+	// a lookup: a method of the dictionary with a (value, found bool) result that does not modify the dictionary
+	if g == nil || g.Signature.Recv() == nil || len(call.Call.Args) == 0 || g.Signature.Results().Len() != 2 || inertDictWriters[g] {
+		return false
+	}
+	if rp, ok := g.Signature.Recv().Type().(*types.Pointer); !ok || !isNamed(rp.Elem(), "redisDict") {
+		return false
+	}
+	if b, ok := g.Signature.Results().At(1).Type().Underlying().(*types.Basic); !ok || b.Kind() != types.Bool {
 		return false
 	}
 	r := call.Call.Args[0]
